@@ -60,7 +60,7 @@ class Unit:
         self.notes = []
 
 
-DIRECTIVES = ('selfparam', 'props', 'requires', 'ensures', 'loop', 'rewrite', 'rewrite*', 'insert', 'emit', 'attr', 'rename',
+DIRECTIVES = ('forwhile', 'selfparam', 'props', 'requires', 'ensures', 'loop', 'rewrite', 'rewrite*', 'insert', 'emit', 'attr', 'rename',
               'ret', 'end', 'recommends', 'decreases', 'nocanary')
 
 
@@ -147,6 +147,8 @@ def parse_unit(path):
                 cur.nocanary = True
             elif first == 'selfparam':
                 cur.selfparam = rest
+            elif first == 'forwhile':
+                cur.forwhile = getattr(cur, 'forwhile', []) + [int(x) for x in rest.split()]
             elif first in ('requires', 'ensures', 'recommends', 'decreases'):
                 if first == 'decreases':
                     c = Clause('decreases', cur.qual + '.decreases', list(cur.props), '')
@@ -610,6 +612,29 @@ def emit_fn(asm, unit, fs, src, canary):
             ed.edits.append((bc, bc, '\n' + text + '\n', ('proof', fs.qual)))
     # loops
     loops = src.loops(bo, bc)
+    # R11b: `for` over a range / enumerate()d slice that is left by `break` -> the equivalent `while`
+    for n in getattr(fs, 'forwhile', []):
+        if n >= len(loops):
+            raise Lost(f'lost anchor: {fs.qual} has {len(loops)} loops, forwhile addresses loop {n}')
+        kw_start, kw, lbo, lbc = loops[n]
+        hdr = src.text[kw_start:lbo]
+        body = src.text[lbo:lbc]
+        if kw != 'for' or re.search(r'\bcontinue\b', body):
+            raise Lost(f'{fs.qual}: loop {n} is not a `for` without `continue` (R11b not applicable)')
+        m1 = re.match(r'for\s+(\w+)\s+in\s+(.+?)\.\.(?!=)(.+?)\s*$', hdr, re.S)
+        m2 = re.match(r'for\s+\(\s*(\w+)\s*,\s*(\w+)\s*\)\s+in\s+(.+?)\.iter\(\)\.enumerate\(\)\s*$', hdr, re.S)
+        if m2:
+            k, x, v = m2.group(1), m2.group(2), m2.group(3).strip()
+            ed.add(kw_start, lbo, f'let mut {k} = 0; let verif_seq_{k} = {v}; while {k} < verif_seq_{k}.len() ', ('rw', 'R11b'))
+            ed.edits.append((lbo + 1, lbo + 1, f' let {x} = &verif_seq_{k}[{k}];', ('rw', 'R11b')))
+            ed.edits.append((lbc, lbc, f' {k} += 1; ', ('rw', 'R11b')))
+        elif m1:
+            v, a, b = m1.group(1), m1.group(2).strip(), m1.group(3).strip()
+            ed.add(kw_start, lbo, f'let mut {v} = {a}; let verif_end_{v} = {b}; while {v} < verif_end_{v} ', ('rw', 'R11b'))
+            ed.edits.append((lbc, lbc, f' {v} += 1; ', ('rw', 'R11b')))
+        else:
+            raise Lost(f'{fs.qual}: loop {n} header `{hdr.strip()}` not of a form R11b handles')
+        log.append('R11b')
     by_loop = {}
     for c in fs.clauses:
         if c.loop is not None:
